@@ -1034,6 +1034,9 @@ func (f *Framer) WriteWindowUpdate(streamID, incr uint32) error {
 	if (incr < 1 || incr > 2147483647) && !f.AllowIllegalWrites {
 		return errors.New("illegal window increment value")
 	}
+	if !validStreamIDOrZero(streamID) && !f.AllowIllegalWrites {
+		return errStreamID
+	}
 	f.startWrite(FrameWindowUpdate, 0, streamID)
 	f.writeUint32(incr)
 	return f.endWrite()
